@@ -30,8 +30,15 @@ Lemma S4_cert : forall d, RMV Same4 (exec_op shipped (Cert d)).
 Proof. intro d; simpl. s4. Qed.
 Lemma S4_insdim : forall g, RMV Same4 (exec_op shipped (InsDim g)).
 Proof. intro g; simpl. s4. Qed.
+Lemma S4_load_dc : RMV Same4 load_dc.
+Proof.
+  intros s s' r H. unfold load_dc in H. destruct (dcache s).
+  - revert H. generalize s s' r. apply (RMV_ret _ Same4_refl).
+  - revert H. generalize s s' r. apply (RMV_ev _ Same4_trans Same4_cf), RMV_upd. intro a; simpl; repeat split; auto.
+Qed.
+
 Lemma S4_expand : forall g, RMV Same4 (exec_op shipped (Expand g)).
-Proof. intro g; simpl. unfold load_dc. s4. Qed.
+Proof. intro g; simpl. apply (RMV_bind _ Same4_trans); [apply S4_load_dc | apply (RMV_guard _ Same4_refl)]. Qed.
 
 Lemma Same4_DI : forall a b, Same4 a b -> DI a -> DI b.
 Proof.
@@ -85,7 +92,24 @@ Proof. intros m Hm s s' r H F. rewrite (ev_absorb_nf m s F) in H. eapply Hm; eau
 Lemma FMo_reg_undo : forall u, FMo (reg_undo u).
 Proof. intros u s s' r H F. unfold reg_undo in H. destruct (ptr s); inversion H; subst; exact F. Qed.
 Lemma FMo_load_dc : FMo load_dc.
-Proof. unfold load_dc. apply FMo_upd. intro s. destruct (dcache s); reflexivity. Qed.
+Proof.
+  intros s s' r H. unfold load_dc in H. destruct (dcache s).
+  - inversion H; subst; intro F; exact F.
+  - revert H. generalize s s' r. apply FMo_ev, FMo_upd. intro; reflexivity.
+Qed.
+
+(* with the fuse spent the cache load is silent *)
+Definition ldc (a : st) : st := match dcache a with Some _ => a | None => set_dcache (Some (dims (cur a))) a end.
+
+Lemma load_dc_prefix_nf : forall m a, fuse a = None -> (load_dc ;; m) a = m (ldc a).
+Proof.
+  intros m a F. unfold bind, load_dc, ldc. destruct (dcache a); [reflexivity|].
+  rewrite (ev_nf _ a F). reflexivity.
+Qed.
+
+Lemma ldc_proj : forall a, cur (ldc a) = cur a /\ fs (ldc a) = fs a /\ fuse (ldc a) = fuse a /\ ptr (ldc a) = ptr a /\
+  sql (ldc a) = sql a /\ ext (ldc a) = ext a.
+Proof. intro a. unfold ldc. destruct (dcache a); simpl; repeat split; auto. Qed.
 
 Definition put_body (d v : N) : act :=
   load_dc ;; ev (guard (fun s => negb (has_ds d s))) ;; upd (on_cur (up_ds (add d))) ;;
@@ -128,10 +152,10 @@ Proof.
   set (a := set_ptr [[]] (set_sql [FReal (cur s)] s)) in *.
   destruct (put_body d v a) as [s2 r2] eqn:E.
   assert (F2 : fuse s2 = None) by (apply (FMo_put_body d v _ _ _ E); exact F).
-  unfold put_body in E. unfold bind at 1 in E. unfold load_dc, upd at 1 in E.
-  set (a1 := match dcache a with Some _ => a | None => set_dcache (Some (dims (cur a))) a end) in *.
+  unfold put_body in E. rewrite (load_dc_prefix_nf _ a F) in E.
+  set (a1 := ldc a) in *.
   assert (KA : cur a1 = cur s /\ fs a1 = fs s /\ fuse a1 = None /\ ptr a1 = [[]] /\ sql a1 = [FReal (cur s)]).
-  { unfold a1, a. destruct (dcache _); simpl; repeat split; auto. }
+  { destruct (ldc_proj a) as (L1 & L2 & L3 & L4 & L5 & L6). unfold a1. rewrite L1, L2, L3, L4, L5. repeat split; auto. }
   destruct KA as (K1 & K2 & K3 & K4 & K5). clearbody a1. clear a.
   unfold bind at 1 in E. rewrite (ev_nf _ a1 K3) in E. unfold guard, has_ds in E. rewrite K1 in E.
   destruct (mem d (ds (cur s))) eqn:M; simpl in E.
@@ -155,21 +179,21 @@ Proof.
 Qed.
 
 Definition ingest_body (mo : mode) (d : N) : act :=
-  ev (guard (fun s => negb (has_ds d s))) ;; upd (on_cur (up_ds (add d))) ;;
+  load_dc ;; ev (guard (fun s => negb (has_ds d s))) ;; upd (on_cur (up_ds (add d))) ;;
   guard (fun s => match fget d (ext s) with Some _ => true | None => false end) ;;
   with_ds shipped (transfer mo d ;; ev (stored_rows d)).
 
 Lemma FMo_ingest_body : forall mo d, FMo (ingest_body mo d).
 Proof.
   intros mo d. unfold ingest_body, stored_rows.
-  repeat first [ apply FMo_bind | apply FMo_ev | apply FMo_guard | apply FMo_with_ds | apply FMo_transfer | (apply FMo_upd; intro; reflexivity) ].
+  repeat first [ apply FMo_bind | apply FMo_ev | apply FMo_guard | apply FMo_with_ds | apply FMo_transfer | apply FMo_load_dc | (apply FMo_upd; intro; reflexivity) ].
 Qed.
 
 Lemma WB_ingest_body : forall mo d, WB (ingest_body mo d).
 Proof.
   intros mo d. unfold ingest_body.
   repeat first [ apply WB_bind | apply WB_ev | apply WB_ret | apply WB_guard | apply WB_with_ds | apply WB_transfer
-               | apply WB_stored_rows | (apply WB_upd; keeps) ].
+               | apply WB_load_dc | apply WB_stored_rows | (apply WB_upd; keeps) ].
 Qed.
 
 Lemma transfer_nf : forall mo d v b l r0, fuse b = None -> ptr b = l :: r0 -> fget d (ext b) = Some v ->
@@ -194,7 +218,11 @@ Proof.
   destruct KA as (K1 & K2 & K3 & K4 & K5 & K6). clearbody a.
   destruct (ingest_body mo d a) as [s2 r2] eqn:E.
   assert (F2 : fuse s2 = None) by (apply (FMo_ingest_body mo d _ _ _ E); exact K3).
-  unfold ingest_body in E. unfold bind at 1 in E. rewrite (ev_nf _ a K3) in E. unfold guard at 1, has_ds in E. rewrite K1 in E.
+  unfold ingest_body in E. rewrite (load_dc_prefix_nf _ a K3) in E.
+  destruct (ldc_proj a) as (L1 & L2 & L3 & L4 & L5 & L6).
+  rewrite <- L1 in K1. rewrite <- L2 in K2. rewrite <- L3 in K3. rewrite <- L4 in K4. rewrite <- L5 in K5. rewrite <- L6 in K6.
+  clear L1 L2 L3 L4 L5 L6. generalize dependent (ldc a). clear a. intros a E K1 K2 K3 K4 K5 K6.
+  unfold bind at 1 in E. rewrite (ev_nf _ a K3) in E. unfold guard at 1, has_ds in E. rewrite K1 in E.
   assert (NOTHING : forall y, ptr y = [[]] -> fs y = fs s -> fuse y = None ->
             DI (set_dcache None (set_cur (cur s) (set_sql [] (set_ptr [] (fold_left run_undo (hd [] (ptr y)) y))))) /\
             sql (set_dcache None (set_cur (cur s) (set_sql [] (set_ptr [] (fold_left run_undo (hd [] (ptr y)) y))))) = [] /\
@@ -224,19 +252,19 @@ Proof.
 Qed.
 
 Definition xfer_body (d : N) : act :=
-  ev (guard (fun s => negb (has_ds d s) || mem d (xf (cur s)))) ;;
+  load_dc ;; ev (guard (fun s => negb (has_ds d s) || mem d (xf (cur s)))) ;;
   upd (on_cur (fun x => up_xf (add d) (up_ds (add d) x))) ;; with_ds shipped (xfer_ds d).
 
 Lemma FMo_xfer_body : forall d, FMo (xfer_body d).
 Proof.
   intro d. unfold xfer_body.
-  repeat first [ apply FMo_bind | apply FMo_ev | apply FMo_guard | apply FMo_with_ds | apply FMo_xfer_ds | (apply FMo_upd; intro; reflexivity) ].
+  repeat first [ apply FMo_bind | apply FMo_ev | apply FMo_guard | apply FMo_with_ds | apply FMo_xfer_ds | apply FMo_load_dc | (apply FMo_upd; intro; reflexivity) ].
 Qed.
 
 Lemma WB_xfer_body : forall d, WB (xfer_body d).
 Proof.
   intro d. unfold xfer_body.
-  repeat first [ apply WB_bind | apply WB_ev | apply WB_guard | apply WB_with_ds | apply WB_xfer_ds | (apply WB_upd; keeps) ].
+  repeat first [ apply WB_bind | apply WB_ev | apply WB_guard | apply WB_with_ds | apply WB_xfer_ds | apply WB_load_dc | (apply WB_upd; keeps) ].
 Qed.
 
 Lemma DIc_ext : forall c c' f, ds c' = ds c -> loc c' = loc c -> recs c' = recs c -> trash c' = trash c -> DIc c f -> DIc c' f.
@@ -266,7 +294,11 @@ Proof.
   assert (KA : cur a = cur s /\ fs a = fs s /\ fuse a = None /\ ptr a = [[]] /\ sql a = [FReal (cur s)]) by (repeat split; auto).
   destruct KA as (K1 & K2 & K3 & K4 & K5). clearbody a.
   destruct (xfer_body d a) as [s2 r2] eqn:E.
-  unfold xfer_body in E. unfold bind at 1 in E. rewrite (ev_nf _ a K3) in E. unfold guard at 1 in E.
+  unfold xfer_body in E. rewrite (load_dc_prefix_nf _ a K3) in E.
+  destruct (ldc_proj a) as (L1 & L2 & L3 & L4 & L5 & L6).
+  rewrite <- L1 in K1. rewrite <- L2 in K2. rewrite <- L3 in K3. rewrite <- L4 in K4. rewrite <- L5 in K5.
+  clear L1 L2 L3 L4 L5 L6. generalize dependent (ldc a). clear a. intros a E K1 K2 K3 K4 K5.
+  unfold bind at 1 in E. rewrite (ev_nf _ a K3) in E. unfold guard at 1 in E.
   destruct (negb (has_ds d a) || mem d (xf (cur a))) eqn:G.
   2:{ inversion E; subst. rewrite K4 in H. simpl in H. inversion H; subst. simpl. unfold DI, DIc; simpl. rewrite K2. repeat split; auto; apply HDI. }
   unfold bind at 1, upd at 1 in E. unfold with_ds in E.
@@ -290,21 +322,21 @@ Definition imp_chain (d : N) : act :=
   ev ret ;; ev (upd (fun s => set_fs (fset d (src_content d) (fs s)) s)) ;; reg_undo (URm d) ;; ev ret ;;
   ev (guard (imp_guard d) ;; stored_rows d).
 Definition imp_body (d : N) : act :=
-  ev (guard (fun s => negb (has_ds d s) || mem d (xf (cur s)))) ;;
+  load_dc ;; ev (guard (fun s => negb (has_ds d s) || mem d (xf (cur s)))) ;;
   upd (on_cur (fun x => up_xf (add d) (up_ds (add d) x))) ;; with_ds shipped (imp_chain d).
 
 Lemma FMo_imp_body : forall d, FMo (imp_body d).
 Proof.
   intro d. unfold imp_body, imp_chain, stored_rows.
   repeat first [ apply FMo_bind | apply FMo_ev | apply FMo_ret | apply FMo_guard | apply FMo_with_ds | apply FMo_reg_undo
-               | (apply FMo_upd; intro; reflexivity) ].
+               | apply FMo_load_dc | (apply FMo_upd; intro; reflexivity) ].
 Qed.
 
 Lemma WB_imp_body : forall d, WB (imp_body d).
 Proof.
   intro d. unfold imp_body, imp_chain.
   repeat first [ apply WB_bind | apply WB_ev | apply WB_ret | apply WB_guard | apply WB_with_ds | apply WB_reg_undo
-               | apply WB_stored_rows | (apply WB_upd; keeps) ].
+               | apply WB_load_dc | apply WB_stored_rows | (apply WB_upd; keeps) ].
 Qed.
 
 Lemma imp_chain_nf : forall d b l r0, fuse b = None -> ptr b = l :: r0 ->
@@ -335,7 +367,11 @@ Proof.
   assert (KA : cur a = cur s /\ fs a = fs s /\ fuse a = None /\ ptr a = [[]] /\ sql a = [FReal (cur s)]) by (repeat split; auto).
   destruct KA as (K1 & K2 & K3 & K4 & K5). clearbody a.
   destruct (imp_body d a) as [s2 r2] eqn:E.
-  unfold imp_body in E. unfold bind at 1 in E. rewrite (ev_nf _ a K3) in E. unfold guard at 1 in E.
+  unfold imp_body in E. rewrite (load_dc_prefix_nf _ a K3) in E.
+  destruct (ldc_proj a) as (L1 & L2 & L3 & L4 & L5 & L6).
+  rewrite <- L1 in K1. rewrite <- L2 in K2. rewrite <- L3 in K3. rewrite <- L4 in K4. rewrite <- L5 in K5.
+  clear L1 L2 L3 L4 L5 L6. generalize dependent (ldc a). clear a. intros a E K1 K2 K3 K4 K5.
+  unfold bind at 1 in E. rewrite (ev_nf _ a K3) in E. unfold guard at 1 in E.
   destruct (negb (has_ds d a) || mem d (xf (cur a))) eqn:G.
   2:{ inversion E; subst. rewrite K4 in H. simpl in H. inversion H; subst. simpl. unfold DI, DIc; simpl. rewrite K2. repeat split; auto; apply HDI. }
   unfold bind at 1, upd at 1 in E. unfold with_ds in E.
@@ -437,4 +473,33 @@ Lemma reachable_unstore_leftovers_p : forall e ops d j h s' r,
 Proof.
   intros e ops d j h s' r H HON. destruct (DI_reachable_p e ops) as (D & Q).
   apply (unstore_leftovers_p d (armed (run_ops ops (init e)) j h) s' r); auto.
+Qed.
+
+(* ---------------------------------------------------------------------------------------------------------- *)
+(* the dimension-record-cache load as a boundary: expandDataId never changes tables or files, whatever the fault; a fault
+   at the load leaves the cache unloaded *)
+Definition SameCF (a b : st) : Prop := cur b = cur a /\ fs b = fs a.
+Lemma SameCF_refl : forall a, SameCF a a. Proof. intro; split; reflexivity. Qed.
+Lemma SameCF_trans : forall a b c, SameCF a b -> SameCF b c -> SameCF a c.
+Proof. unfold SameCF; intros a b c (A1 & A2) (B1 & B2); split; congruence. Qed.
+Lemma SameCF_cf : forall a b, cur b = cur a -> fs b = fs a -> SameCF a b. Proof. unfold SameCF; auto. Qed.
+
+Lemma expand_untouched_p : forall g s s' r, exec_op shipped (Expand g) s = (s', r) ->
+  cur s' = cur s /\ fs s' = fs s /\ ext s' = ext s /\ ptr s' = ptr s.
+Proof.
+  intros g s s' r H.
+  assert (L : RMV SameCF load_dc).
+  { intros a a' ra Ha. unfold load_dc in Ha. destruct (dcache a).
+    - revert Ha. generalize a a' ra. apply (RMV_ret _ SameCF_refl).
+    - revert Ha. generalize a a' ra. apply (RMV_ev _ SameCF_trans SameCF_cf), RMV_upd. intro b; simpl; repeat split; auto. }
+  simpl in H. assert (E : RMV SameCF (load_dc ;; guard (fun s0 => match dcache s0 with Some l => mem g l | None => false end)))
+    by (apply (RMV_bind _ SameCF_trans); [exact L | apply (RMV_guard _ SameCF_refl)]).
+  destruct (E _ _ _ H) as (A & B & (C & D)). auto.
+Qed.
+
+Lemma cache_load_fault_p : forall g s s' r, dcache s = None -> fuse s = Some 0%nat -> exec_op shipped (Expand g) s = (s', r) ->
+  r = Raised (hard s) /\ dcache s' = None /\ cur s' = cur s /\ fs s' = fs s /\ fuse s' = None.
+Proof.
+  intros g s s' r D F H. simpl in H. unfold bind, load_dc in H. rewrite D in H. unfold ev, tick in H. rewrite F in H.
+  inversion H; subst; simpl. repeat split; auto.
 Qed.
